@@ -125,7 +125,7 @@ func (f *Formatter) formatBlockStatement(stmt *ast.BlockStatement) string {
 	lines := Lines{}
 
 	for _, s := range stmt.Statements {
-		if s.GetMeta().PreviousEmptyLines > 0 && len(lines) > 0 {
+		if f.startsGroup(s) && len(lines) > 0 {
 			group.Lines = append(group.Lines, lines)
 			lines = Lines{}
 		}
@@ -153,6 +153,16 @@ func (f *Formatter) formatBlockStatement(stmt *ast.BlockStatement) string {
 	buf.WriteString("}")
 
 	return trimMultipleLineFeeds(buf.String())
+}
+
+// A statement starts a new group of lines when an empty line is printed above it,
+// either above the statement itself or above its leading comments.
+func (f *Formatter) startsGroup(stmt ast.Statement) bool {
+	meta := stmt.GetMeta()
+	if meta.PreviousEmptyLines > 0 {
+		return true
+	}
+	return len(meta.Leading) > 0 && meta.Leading[0].PreviousEmptyLines > 0
 }
 
 // Format declare local variable statement
